@@ -66,6 +66,8 @@ def benign_table():
         res = ("%d/%d" % (len(ch) - len(loud), len(ch))) if ch else "not run"
         if loud:
             res += " (alarm: %s)" % ", ".join(loud)
+        if meta.get("assessment"):
+            res += " - " + meta["assessment"].replace("|", "\\|")
         out.append("| `%s` | %s | %s |" % (name, note, res))
     return "\n".join(out)
 
